@@ -377,3 +377,15 @@ func genTxs(rt *rapid.T, m *machine) []sim.Tx { return gen.GenTxs(rt, m.copts) }
 // one of them per growth round (each is consistent with the previous one, so nothing can
 // reveal it) and meets the canonical chain with the first block it has to fetch.
 const healRounds = 8
+
+// cloneTxs: block contents are sealed in place when appended to a chain (hashes and
+// indexes are written into them), so two chains never share the same values.
+func cloneTxs(txs []sim.Tx) []sim.Tx {
+	out := make([]sim.Tx, len(txs))
+	for i := range txs {
+		out[i] = txs[i]
+		out[i].Logs = append([]sim.Log{}, txs[i].Logs...)
+		out[i].Traces = append([]sim.Trace{}, txs[i].Traces...)
+	}
+	return out
+}
